@@ -28,11 +28,11 @@ pub fn run_profile(prof: engine::Profile) {
         e.end(true, false);
     } else {
         e.quiesce();
-        if !report::has_violation() {
+        if !report::has_violation() && !e.stuck {
             e.drop_all_bufs();
             e.check_pool_conservation();
         }
-        let clean = !report::has_violation();
+        let clean = !report::has_violation() && !e.stuck;
         let shuffle = tape::chance(site::DROP, 1, 3);
         e.end(shuffle, clean);
     }
